@@ -107,6 +107,19 @@ CFG = {
             "stream; /Count and the object named by /Kids; plus TRUNCATIONS with everything else consistent: object-stream data cut at {0, 1, First-1, "
             "First, First+1, last offset-1, last offset, last offset+1, end-1}, cross-reference rows cut inside and after the first row. The builder "
             "records every field it consults, so thorough sweeps all of them in all 14 configurations; quick sweeps about 60 field instances; "
+            "the /Filter x /DecodeParms SHAPE TABLE of StreamT::filters (C06 runs it on the function alone) on the same four streams the pipeline "
+            "decodes itself - content stream alone and first in a /Contents array, object stream holding catalog and page tree, cross-reference "
+            "stream - in complete documents (corpus/C01/filter_parms_shapes.case + 297 documents in quick, 5280 in thorough): /Filter in {absent, a "
+            "name (Flate, ASCIIHex; thorough also ASCII85, unknown), array of 0 / 1 / 2 / 3 names, a non-name (7, null; thorough also string, "
+            "dictionary, boolean, real, defined and dangling reference), arrays mixing a name with a non-name in both orders (thorough: nested array, "
+            "null and reference elements, unknown filter before / after a known one, repeated filters)} x /DecodeParms in {absent, null, << >>, "
+            "<< /Predictor 1 >>, << /Predictor 12 /Columns 4 >>, arrays of 0 / 1 / 2 / 3 (thorough 4) entries of null / dictionary / integer / "
+            "reference (thorough: name, string, nested and empty arrays) with equal and non-matching lengths, scalars 7 /N, a reference (thorough "
+            "string, boolean, real, dangling reference)}, the two keys in both orders; the data is the host's own payload REALLY ENCODED for the "
+            "layers the /Filter entry names (stored-block zlib, hex, base-85, outermost first; PNG-Up rows by the spec-side predictor encoder where "
+            "the shape hands the predictor dictionary to a FlateDecode layer), so the legal shapes complete on the object-stream and "
+            "cross-reference hosts only through the real decoders. Quick: every pair once with the host rotating, plus single name / one-name "
+            "array x {[], [null], [<< >>], [null null]} and three legal predictor chains on all four hosts; thorough: every pair on every host; "
             "Flate, ASCIIHex, ASCII85 and chained filters; 15 extreme numbers substituted into "
             "/Length, /N, /First, /W, /Index, /Prev, startxref; classic-table, xref-stream (+Flate), object-stream, incrementally-updated and encrypted "
             "layouts (corpus/C01/encrypted_hybrid.case: the complete one-page document as a hybrid file whose trailer declares /Encrypt - the code refuses the /XRefStm stream and exits (the oracle accepts completed or rejected; the model correspondence pins which), "
